@@ -193,3 +193,18 @@ Theorem parse_print_kernel_exact : forall k1 k2 : kernel,
   valid_kernel k1 -> valid_kernel k2 -> parse_kernel (print_kernel k1) = parse_kernel (print_kernel k2) -> k1 = k2.
 Proof. exact NvTraceProofs.parse_print_kernel_exact. Qed.
 Print Assumptions parse_print_kernel_exact.
+
+(** Kernel lists: every launch of a trace directory parses to its own
+    structure - also when several launches share kernel name and launch
+    configuration and differ only in their bodies - and the result for one file
+    does not depend on the files read before or after it. *)
+Theorem parse_dir_roundtrip : forall ks : list kernel,
+  Forall valid_kernel ks ->
+  parse_dir (map print_kernel ks) = map (fun k => Some (k_hdr k, map expected_block (k_blocks k))) ks.
+Proof. exact NvTraceProofs.parse_dir_roundtrip. Qed.
+Print Assumptions parse_dir_roundtrip.
+
+Theorem parse_dir_independent : forall (before after : list (list line)) (f : list line),
+  nth (List.length before) (parse_dir (before ++ f :: after)) None = parse_kernel f.
+Proof. exact NvTraceProofs.parse_dir_independent. Qed.
+Print Assumptions parse_dir_independent.
